@@ -63,7 +63,7 @@ def depth_of(route, kind):
 class C12(Machine):
     name = "c12"
     property_id = "C12"
-    runs = {"quick": 30000, "thorough": 1500000}
+    runs = {"quick": 30000, "thorough": 800000}
     batch = 200
     rule = ("seeded object (tree / tree list / matrix / namespace, with annotations, comments, bound attributes, encoded bipartitions, "
             "extra attributes), seeded copy route, then 3-25 mutations applied to source or copy; distinct = (kind, route, sequence of "
@@ -94,7 +94,7 @@ class C12(Machine):
                                         internal_labels=rng.random() < 0.4) for _ in range(rng.randint(1, 3))],
                 "rows": gen.sequences(rng, labs, rng.randint(1, 6), "ACGT-?N" if cfg["dt"] == "dna" else "01?-")}
         steps = []
-        for _ in range(rng.randint(3, 25)):
+        for _ in range(rng.randint(3, 60 if tier == "thorough" else 25)):
             steps.append({"side": rng.choice(["src", "copy"]), "m": rng.choice(MUTS[kind]), "k": rng.randrange(10 ** 6), "k2": rng.randrange(10 ** 6),
                           "v": rng.choice([0.5, 2, 7.25, None]), "s": rng.choice(["foo", "bar", "q", ""])})
         return {"config": cfg, "initial": init, "steps": steps}
